@@ -296,6 +296,14 @@ var witnesses = []witness{
 		w.x("update t set b=2 where k=1")
 		return wantEq("a after an update of b", w.q("select a from t"), "R:8000000000000000")
 	}},
+	{id: "F36", props: []string{"C15", "C05"}, what: "a deadline-only UPDATE of s3db_conn inside a transaction made the transaction's time a sticky write_time", run: func(w *wEnv) string {
+		w.mk("t", "k primary key, a", sqlh.TableOpts{})
+		w.x("begin")
+		w.x("insert into t values (1,'x')")
+		w.x("update s3db_conn set deadline=NULL")
+		w.x("commit")
+		return wantEq("write_time after the transaction", w.q("select write_time from s3db_conn"), "N")
+	}},
 	{id: "F15", props: []string{"C03"}, what: "an open racing with a commit showed an empty table (kv level)", run: func(w *wEnv) string {
 		// covered exhaustively by the proto stream; here: a version that left root/current/ between LIST and GET
 		return ""
